@@ -112,6 +112,7 @@ class Model:
         self.entries = {}  # func id -> set of tok ids (first byte tok of entry blocks)
         self.dropped_funcs = set()
         self.proxy_ambiguous = set()
+        self.proxy_fall = set()
         self.counter = 0
         self.new_units = []
 
@@ -262,6 +263,11 @@ class Model:
                 if unit.toks[j].kind == "label":
                     self.proxy_ambiguous.add(unit.toks[j].name)
                 j -= 1
+            # documented: incoming control flow (a fallthrough from the
+            # preceding instruction included) is redirected to the proxy;
+            # a zero-width marker remembers the place
+            self.counter += 1
+            unit.toks.insert(first, Tok("pmark", f"pm{self.counter}"))
         unit.toks = [t for t in unit.toks if t.id not in ids]
         sp.remaining -= ids
         if sp.size > 0 and not sp.remaining and not sp.inserted and not replacing and sp.alive:
